@@ -229,6 +229,9 @@ func (u *Universe) makeResolver(def *ast.Definition, fd *ast.FieldDefinition, ft
 			e.Log("RE", path, nil)
 		}()
 		o := e.Plan.Get(path, !fd.Type.NonNull)
+		if y, sl, w, sg := e.Plan.Sched(path); y+sl > 0 || w != "" || sg != "" {
+			o.Yield, o.SleepUS, o.Wait, o.Signal = o.Yield+y, o.SleepUS+sl, w, sg
+		}
 		e.sched(ctx, o)
 		if o.Signal != "" {
 			defer e.signal(o.Signal)
